@@ -380,3 +380,75 @@ def memo_key_rule(chk: Check, rule: str, fns: list[FuncInfo], suppress: dict[tup
             else:
                 chk.ok(rule, fn, construct, f"key covers {sorted(deps)}", fn.loc(site))
     chk.note(f"{rule}: {n} explicit cache store(s) analysed")
+
+
+# ------------------------------------------------------------------------------------------------- documented methods
+def _mentions_filters(P: Project, fn: FuncInfo, depth: int = 0, seen: set[str] | None = None) -> ast.AST | None:
+    """A node in fn (or a repo callee, depth <= 2) that consults the user's filters (_should_skip / filter_set)."""
+    seen = seen if seen is not None else set()
+    if fn.qualname in seen:
+        return None
+    seen.add(fn.qualname)
+    for n in walk_body(fn.node, into_nested=True):
+        if isinstance(n, ast.Attribute) and n.attr in ("_should_skip", "filter_set"):
+            return n
+    if depth < 2:
+        for c in body_calls(fn, into_nested=True):
+            r = P.resolve_call(fn, c)
+            if r and r[0] == "func":
+                hit = _mentions_filters(P, r[1], depth + 1, seen)  # type: ignore[arg-type]
+                if hit is not None:
+                    return hit
+    return None
+
+
+def documented_methods_rule(chk: Check, rule: str, aspect: str) -> None:
+    """The coverage phase probes 'unspecified' HTTP methods = candidates minus the methods DOCUMENTED for the path.
+    aspect 'filters' (C07): that set must not depend on the user's filters; aspect 'labels' (C03): it must be the
+    RESOLVED path item's methods (a path item may be behind $ref), else documented methods are labelled unspecified."""
+    from ..pattern import match as pmatch
+
+    OAS = "specs/openapi/schemas.py"
+    doc = ("PRODUCER/CONSUMER(documented methods of a path): the coverage phase probes 'unspecified' HTTP methods = candidates minus the methods DOCUMENTED for the path, taken from the direct-access map schema[path] (resolved path item, all documented methods); "
+           + ("that map enumerates the path item without applying the user's filters (a documented-but-excluded method must not be probed)" if aspect == "filters"
+              else "a raw `paths` entry is not a substitute: it may be a `$ref`, and then documented methods are sent and labelled as 'Unspecified HTTP method' / NEGATIVE"))
+    chk.rule(rule, doc, floor=1)
+    P = chk.project
+    fn = P.func("generation/hypothesis/builder.py:_iter_coverage_cases")
+    subs = [n for n in walk_body(fn.node) if isinstance(n, ast.BinOp) and isinstance(n.op, ast.Sub) and "unexpected_methods" in names_in(n.left)]
+    if not subs:
+        chk.undecided(rule, fn, "unexpected_methods - <documented methods>", "the subtraction is not recognised", fn.loc())
+        return
+    right = subs[0].right
+    m = pmatch("set($X)", right)
+    src = m["X"] if m else right
+    via_map = isinstance(src, ast.Subscript) and unparse(src.value).endswith(".schema") and unparse(src.slice).endswith(".path")
+    raw = "raw_schema" in unparse(src, 200) or "['paths']" in unparse(src, 200)
+    construct = "documented methods = set(operation.schema[operation.path])"
+    if via_map:
+        chk.ok(rule, fn, construct, "", fn.loc(subs[0]))
+    elif raw:
+        if aspect == "labels":
+            chk.violation(rule, fn, construct,
+                          f"the documented methods are read from the raw schema (`{unparse(src, 70)}`): when the path item is behind a `$ref` the raw entry is `{{'$ref': ...}}`, nothing is subtracted, and requests with DOCUMENTED methods are generated and labelled 'Unspecified HTTP method' / negative (unsupported_method then reports false failures, conformance checks are skipped for valid calls)",
+                          fn.loc(subs[0]))
+        else:
+            chk.ok(rule, fn, "documented methods do not depend on the filters", "raw schema entry (resolution is C03's concern)", fn.loc(subs[0]))
+        return
+    else:
+        chk.undecided(rule, fn, construct, f"source `{unparse(src, 80)}` not recognised", fn.loc(subs[0]))
+        return
+    if aspect != "filters":
+        return
+    for meth in ("__iter__", "__len__"):
+        f = P.maybe_func(f"{OAS}:MethodMap.{meth}")
+        if f is None:
+            chk.undecided(rule, OAS, f"MethodMap.{meth}", "direct-access map method not found", OAS)
+            continue
+        hit = _mentions_filters(P, f)
+        if hit is None:
+            chk.ok(rule, f, f"MethodMap.{meth} enumerates the raw path item (filter-independent)", "", f.loc())
+        else:
+            chk.violation(rule, f, f"MethodMap.{meth} enumerates the raw path item (filter-independent)",
+                          "the direct-access map hides operations excluded by the user's filters; the coverage phase computes `unexpected_methods - set(schema[path])`, so a documented but excluded method (DELETE after --exclude-method DELETE) is probed as an 'unspecified method': requests are sent to an excluded operation",
+                          f.loc(hit))
